@@ -1,4 +1,7 @@
 import FpgoVerif.Proofs.C14Inv
+import FpgoVerif.Proofs.C14Progress
+import FpgoVerif.Proofs.C14Wait
+import FpgoVerif.Proofs.C14Run
 import FpgoVerif.Gen.Skeletons
 import FpgoVerif.Gen.C15Bodies
 /-! Property theorems for C14 — coroutines pair every YieldFrom with the matching YieldRef, in order, per caller.
@@ -39,6 +42,30 @@ theorem C14_caller_complete {gen cap script sv s} (h : Reach gen cap script sv s
   rw [hp, hq] at h1
   rw [hr, hf] at h2
   exact ⟨by simpa using h1, by simpa using h2⟩
+
+/-- a caller is inside a YieldFrom (`waiting`) iff exactly one item of its is on the way — its request queued in
+    opCh, or taken and not yet answered, or the answer sitting in its resultCh; otherwise none is: no request or
+    answer is duplicated on the way and none disappears while its caller waits -/
+theorem C14_outstanding {gen cap script sv s} (h : Reach gen cap script sv s) (i : Nat) :
+    (chOf i s.opCh).length + (inflY i s.inflight).length + (s.resCh i).length = if s.waiting i = true then 1 else 0 :=
+  inv2_reach h i
+
+/-- no value is lost to a stuck system: while any caller still has a request to make or is waiting for an answer,
+    some atom is enabled (the target has YieldRefs left = the `take`/`answer` atoms exist; opCh has capacity ≥ 1).
+    Together with `C14_caller_complete` every maximal run ends with all callers complete. -/
+theorem C14_progress {gen cap script sv s} (h : Reach gen cap script sv s) (hcap : 0 < cap)
+    (hw : ∃ i, s.pending i ≠ [] ∨ s.waiting i = true) : ∃ a s', step gen cap s a = some s' :=
+  progress (inv2_reach h) hcap hw
+
+/-- non-vacuity of `C14_progress`: the initial state of a one-caller system has a request to make -/
+example : ∃ i, (init (mkScript [2]) none).pending i ≠ [] ∨ (init (mkScript [2]) none).waiting i = true :=
+  ⟨0, Or.inl (by decide)⟩
+
+/-- the run the driver executes for a `pair` / `zero` / `donotyf` case (round-robin over all atoms) is a path of the
+    transition system: the invariants above hold of the very state `handle` evaluates its monitors on -/
+theorem C14_run_reach {gen cap script sv} (n fuel : Nat) :
+    Reach gen cap script sv (runRR gen cap n fuel (init script sv)) :=
+  runRR_reach n fuel _ Reach.init
 
 /-- non-vacuity: one caller with script [11, 12], generator "fixed": the run completes with both answers -/
 example : (let s := runRR (shapeGen "fixed" false) 5 1 40 (init (mkScript [2]) none)
@@ -92,15 +119,35 @@ theorem C14_startWithVal {gen cap script v s} (h : Reach gen cap script (some v)
         · simp at hs
       · simp at hs
 
-/-- DoNotation / YieldFromIO return the effect's / the IO's value: the waiter can read a result only after the
-    store and the `Done`, and then it is the stored value -/
-theorem C14_doNotation (v : Nat) : doNotation v = some v := rfl
-theorem C14_wait_reads_stored (st : WgSt) (r : Nat) (h : wgResult st = some r) : st = .signalled r := by
-  cases st <;> simp [wgResult] at h; subst h; rfl
+/-- DoNotation returns the effect's result and YieldFromIO the IO's value, in EVERY interleaving of the calling
+    goroutine (Add; Start/Subscribe; Wait; return result) with the goroutine that runs the effect / OnNext
+    (result = v; Done): whatever is returned is `v` -/
+theorem C14_doNotation {v s r} (h : DnReach v s) (hr : s.m = .ret r) : r = v := dn_ret h hr
 
-/-- IsStarted / IsDone: false,false before Start; true,false while the effect runs; true,true after it returned -/
-theorem C14_flags : flagsTrace.map (fun f => (f.started, f.done)) = [(false, false), (true, false), (true, true)] := by
+/-- … and the call does return: until it has returned and the coroutine is done, some goroutine can step (Wait is
+    released by Done; nothing else blocks) -/
+theorem C14_doNotation_progress {v s} (h : DnReach v s) (hn : (∀ r, s.m ≠ .ret r) ∨ s.e ≠ .fin) :
+    ∃ a s', dnStep v s a = some s' := dn_progress h hn
+
+/-- the driver's `doNotation` (round-robin schedule of the same system) returns v -/
+theorem C14_doNotation_run (v : Nat) : doNotation v = some v := rfl
+
+/-- IsStarted / IsDone in every reachable state: IsStarted ⇔ Start has run (the effect goroutine exists — "becomes
+    true when the effect starts"), IsDone ⇔ the effect has returned and close() has set the flag ("when it returns");
+    never done before started -/
+theorem C14_flags {v s} (h : DnReach v s) :
+    (s.started = true ↔ s.e ≠ .idle) ∧ (s.done = true ↔ s.e = .fin) ∧ (s.done = true → s.started = true) :=
+  dn_flags h
+
+/-- the three observation points of the `flags` case on that system: false,false before Start; true,false while
+    the effect runs; true,true after it returned (a test of the executable model, not the general claim) -/
+theorem C14_flags_trace : flagsTrace.map (fun f => (f.started, f.done)) = [(false, false), (true, false), (true, true)] := by
   decide
+
+/-- non-vacuity: the state in which the caller is blocked in Wait while the effect has stored but not signalled -/
+example : ∃ s, DnReach 7 s ∧ s.m = .m2 ∧ s.e = .e1 ∧ s.wg = 1 :=
+  ⟨dnRun 7 {} [.main, .main, .eff],
+   DnReach.step .eff (DnReach.step .main (DnReach.step .main DnReach.init rfl) rfl) rfl, rfl, rfl, rfl⟩
 
 /-! ### protocol tie: the exact current bodies of the coroutine functions (regenerated on every run) -/
 
